@@ -34,11 +34,15 @@ def run_single(ctx, rng, N):
         near = bool(rng.random() < 0.3)
         base_s = (1.0 + 1e-3 * np.arange(p))[::-1] if near else np.linspace(3.0, 0.5, p)
         X = Z.data2d(rng, n, p, "x", cplx=sp.cplx, red=(kind == "HilbertEOF")) * base_s
+        # fields in small or large physical units: a rotation re-expresses the subspace whatever the units
+        units = float(10.0 ** rng.integers(-12, 7)) if rng.random() < 0.4 else 1.0
+        X = X * units
+        ctx.dist["c11:units:1e%d" % int(round(np.log10(units)))] += 1
         kb = int(rng.integers(2, min(n - 1, p) + 1))
         k = int(rng.integers(2, kb + 1))
         power = int(rng.choice([1, 1, 2, 3, 4]))
-        replay = dict(kind="single", cls=kind, X=np.asarray(X.values), kb=kb, k=k, power=power)
-        ctx.case(("c11", kind, n, p, kb, k, power, near, i), nontrivial=True, tag="%sRotator/power%d/%s%s" % (kind, power, "near-equal" if near else "separated", "/refit" if i % 3 == 2 else ""),
+        replay = dict(kind="single", cls=kind, X=np.asarray(X.values), kb=kb, k=k, power=power, units=units)
+        ctx.case(("c11", kind, n, p, kb, k, power, near, units, i), nontrivial=True, tag="%sRotator/power%d/%s%s" % (kind, power, "near-equal" if near else "separated", "/refit" if i % 3 == 2 else ""),
                  sample=dict(cls=kind + "Rotator", shape=[n, p], base_modes=kb, n_modes=k, power=power, near_equal_spectrum=near))
         try:
             m = sp.make(kb, solver="full")
@@ -69,7 +73,7 @@ def run_single(ctx, rng, N):
         rec_rot = rot.inverse_transform(rot.scores())
         rec_base = m.inverse_transform(m.scores().sel(mode=slice(1, k)))
         if not Z.same(rec_rot.transpose(*X.dims).values, rec_base.transpose(*X.dims).values, 1e-6):
-            ctx.violation(key + ":recon", "%sRotator(power=%d): reconstruction from the rotated scores differs from the %d-mode unrotated reconstruction" % (kind, power, k), replay)
+            ctx.violation(key + ":recon", "%sRotator(power=%d): reconstruction from the rotated scores differs from the %d-mode unrotated reconstruction (data in units of %g)" % (kind, power, k, units), replay)
         ev = rot.explained_variance().values
         if np.any(np.diff(ev) > 1e-9 * ev.max()):
             ctx.violation(key + ":order", "%sRotator(power=%d): rotated modes are not in descending order of explained variance: %r" % (kind, power, ev), replay)
@@ -108,6 +112,9 @@ def run_cross(ctx, rng, N):
         p1, p2 = int(rng.integers(3, 6)), int(rng.integers(3, 6))
         X = Z.data2d(rng, n, p1, "x", cplx=sp.cplx)
         Y = Z.data2d(rng, n, p2, "y", cplx=sp.cplx)
+        if rng.random() < 0.4:
+            X, Y = X * float(10.0 ** rng.integers(-12, 7)), Y * float(10.0 ** rng.integers(-12, 7))
+            ctx.dist["c11:cross:rescaled-fields"] += 1
         kb = int(rng.integers(2, min(p1, p2) + 1))
         k = int(rng.integers(2, kb + 1))
         power = int(rng.choice([1, 1, 2, 3]))
